@@ -78,7 +78,7 @@ type kOp struct {
 
 type kEvent struct {
 	AtUs  int      `json:"at_us"`
-	Kind  string   `json:"kind"` // move unassign migrate finish abort loop heal kill revive failover health
+	Kind  string   `json:"kind"` // move unassign migrate finish abort loop view heal kill revive failover health
 	Slot  int      `json:"slot,omitempty"`
 	Hi    int      `json:"hi,omitempty"`
 	To    int      `json:"to,omitempty"`
@@ -766,6 +766,9 @@ func kRunPlan(t *testing.T, plan kPlan) (run kRun) {
 				case "loop":
 					cl.SetView(e.Node, e.Slot, e.Hi, e.To)
 					cl.SetView(e.Node2, e.Slot, e.Hi, e.To2)
+				case "view":
+					// one node misses a configuration update: it keeps believing (and answering in CLUSTER SLOTS / SHARDS) that shard To owns the range
+					cl.SetView(e.Node, e.Slot, e.Hi, e.To)
 				case "heal":
 					cl.ClearView(e.Node)
 					cl.ClearView(e.Node2)
